@@ -294,7 +294,7 @@ func (r *UnitRun) tensorIfaceType() types.Type {
 }
 
 // verifyLemma proves a lemma from the domain axioms alone.
-func verifyLemma(p *Program, ax Axiom) *UnitResult {
+func verifyLemma(p *Program, ax Axiom) (res *UnitResult) {
 	var pkg *Unit
 	for _, n := range sortedKeys(p.Units) {
 		if p.Units[n].Short == ax.Short && !p.Units[n].Abstract {
@@ -304,7 +304,7 @@ func verifyLemma(p *Program, ax Axiom) *UnitResult {
 	}
 	u := &Unit{Name: "lemma." + ax.Name, Short: ax.Short, Pkg: pkg.Pkg, HasSpec: true, Loops: map[int]*LoopSpec{}, Where: ax.C.Where}
 	r := newUnitRun(p, u)
-	res := &UnitResult{Unit: u, Run: r}
+	res = &UnitResult{Unit: u, Run: r}
 	defer func() {
 		if x := recover(); x != nil {
 			switch e := x.(type) {
@@ -323,6 +323,22 @@ func verifyLemma(p *Program, ax Axiom) *UnitResult {
 	st := &State{u: r, vars: map[types.Object]Val{}, names: map[string]types.Object{}, arrs: map[*Obj]string{}, heap: map[string]string{}, frozen: map[*Obj]bool{}, ghost: map[string]Val{}}
 	r.entry = st.clone()
 	env := &SpecEnv{run: r, st: st, old: r.entry, bound: map[string]Val{}}
+	if len(ax.C.Uses) > 0 {
+		// a lemma may use lemmas declared before it (no cycles)
+		earlier := map[string]bool{}
+		for _, a2 := range p.Axioms {
+			if a2.Name == ax.Name {
+				break
+			}
+			earlier[a2.Name] = true
+		}
+		for _, n := range ax.C.Uses {
+			if !earlier[n] {
+				panic(toolLimit("lemma " + ax.Name + " uses " + n + ", which is not declared before it"))
+			}
+		}
+		r.assumeNamed(st, ax.C.Uses)
+	}
 	if ax.Induct != "" {
 		// induction on hi - lo: base and step are the obligations; the quantified conclusion is what "uses" provides
 		mk := func(src string) Clause {
@@ -332,8 +348,15 @@ func verifyLemma(p *Program, ax Axiom) *UnitResult {
 			}
 			return Clause{Expr: e, Text: src, Where: ax.C.Where}
 		}
-		base := mk(fmt.Sprintf("forallI(lo, forallI(hi, imp(lo == hi, %s(lo, hi))))", ax.Induct))
-		step := mk(fmt.Sprintf("forallI(lo, forallI(hi, imp(lo < hi && %s(lo+1, hi), %s(lo, hi))))", ax.Induct, ax.Induct))
+		var base, step Clause
+		if strings.HasPrefix(ax.Induct, "up ") {
+			b := strings.TrimPrefix(ax.Induct, "up ")
+			base = mk(fmt.Sprintf("%s(0)", b))
+			step = mk(fmt.Sprintf("forallI(k, imp(0 <= k && %s(k), %s(k+1)))", b, b))
+		} else {
+			base = mk(fmt.Sprintf("forallI(lo, forallI(hi, imp(lo == hi, %s(lo, hi))))", ax.Induct))
+			step = mk(fmt.Sprintf("forallI(lo, forallI(hi, imp(lo < hi && %s(lo+1, hi), %s(lo, hi))))", ax.Induct, ax.Induct))
+		}
 		r.oblige(st, "lemma", "base", r.specBool(env, base, "induction base of "+ax.Name), nil, "induction base (lo == hi) of "+ax.Name, nil)
 		r.oblige(st, "lemma", "step", r.specBool(env, step, "induction step of "+ax.Name), nil, "induction step (lo+1 => lo) of "+ax.Name, nil)
 		r.assumption("induction principle on hi - lo for " + ax.Name + " (base and step are machine-checked; the principle itself is qv's)")
